@@ -212,6 +212,13 @@ def check_helper(c):
                 discs.append(Disc("helper.module_info", f"slot {c['slot']}: {mi!r}"[:500]))
         except PycommError as e:
             discs.append(Disc("helper.module_info.raises", f"slot {c['slot']}: {e!r} <- {e.__cause__!r}"[:400]))
+        # helper calls must not disturb each other: after get_module_info the PLC's own identity is still reached
+        again = {k: v for k, v in plc.get_plc_info().items() if k in want_info}
+        if again != want_info:
+            discs.append(Disc("helper.plc_info.after-module_info", f"get_plc_info() after get_module_info({c['slot']}) returned {again!r}, expected {want_info!r}"[:600]))
+        us = [e["ucsend"]["route"] for e in tgt.log if "ucsend" in e]
+        if us and us[-1] != b"\x01\x00":
+            discs.append(Disc("helper.route.after-module_info", f"Unconnected Send route after get_module_info is {us[-1].hex()}, the driver's path is 0100"))
         t0 = plc.get_plc_time()
         if not t0 or t0.value["microseconds"] != c["clock0"]:
             discs.append(Disc("helper.get_time", f"{t0!r}, clock is {c['clock0']}"[:300]))
